@@ -15,6 +15,7 @@
  *                 sigint      (SIGINT to the process after the call)   sigterm
  *                 stop        (SIGSTOP to the process after the call)
  *                 delay,<ms>  (sleep before the call)
+ *                 shortread,<n> (pread returns at most n bytes)
  *  VSHIM_TIME=<sec>       time() returns this value (+ content of VSHIM_TIME_FILE if set, re-read each call)
  *  VSHIM_URANDOM=<file>   open("/dev/urandom") opens this file instead
  *  VSHIM_STATFS=1         statfs() succeeds with constant sizes (f_type kept)
@@ -300,6 +301,9 @@ static ssize_t do_pread(int fd, void* buf, size_t count, off_t off)
 	r = match("pread", path, 0);
 	if (pre(r, "pread", path, off, count))
 		return -1;
+	/* shortread,<n>: the call returns at most n bytes (a legal short read) */
+	if (r && strcmp(r->action, "shortread") == 0 && r->arg > 0 && count > (size_t)r->arg)
+		count = (size_t)r->arg;
 	ret = real_pread(fd, buf, count, off);
 	e = errno;
 	if (trace_reads || r)
